@@ -46,7 +46,9 @@ LiveSess(a) == {s \in DOMAIN a.sess : a.sess[s].st # "rev"}
 CredsOf(a)  == Range(a.creds)
 
 \* ------------------------------------------------------------------ L1  (C32)
-\* Necessary conditions for a bearer token to be accepted at time t.  Anonymous tokens never have
+\* Necessary conditions for a bearer token to be accepted at time t ("apart from a short grace window
+\* after issue, its session must also be recorded ... and not revoked": the grace window waives the
+\* PRESENCE of the record, never a recorded revocation).  Anonymous tokens never have
 \* session records (stated design of the anonymous account), so only signature / expiry / account /
 \* window are required of them.
 L1Accept(tk, st, t) ==
@@ -55,10 +57,12 @@ L1Accept(tk, st, t) ==
   /\ tk.acct \in DOMAIN st.accts
   /\ LET a == st.accts[tk.acct]
      IN  /\ ~Outside(t, a.vf, a.ex)
-         /\ \/ t < tk.iat + Grace
-            \/ tk.anon
+         \* the grace window only excuses a session record that is not (yet) there: a login session that
+         \* IS recorded must be live (not revoked, same expiry) whatever the time
+         /\ \/ tk.anon
             \/ tk.kind = "uat" /\ SessLive(a, tk)
-            \/ tk.kind = "api" /\ ApiLive(a, tk)
+            \/ tk.kind = "uat" /\ tk.sid \notin DOMAIN a.sess /\ t < tk.iat + Grace
+            \/ tk.kind = "api" /\ (ApiLive(a, tk) \/ t < tk.iat + Grace)
 
 L1PresentOk(tk, st, t, res) == res = "ok" => L1Accept(tk, st, t)
 
